@@ -42,6 +42,7 @@ def knownBasic (cfg : Cfg) : Known → List Step → Option Known
   | K, .load :: ss => if loadSafe cfg K then knownBasic cfg K ss else none
   | K, .loadGo :: ss => if loadSafe cfg K then knownBasic cfg K ss else none
   | _, .checkName _ _ :: _ => none
+  | K, .need a _ :: ss => if K.contains a then knownBasic cfg K ss else none
   | K, .body :: ss => knownBasic cfg K ss
   | _, .unknown :: _ => none
 
@@ -50,10 +51,14 @@ def knownSteps (cfg : Cfg) : Known → List Step → Option Known
   | K, .guard c _ :: ss => if condSafe K c then knownSteps cfg (learnF c ++ K) ss else none
   | K, .load :: ss => if loadSafe cfg K then knownSteps cfg K ss else none
   | K, .loadGo :: ss => if loadSafe cfg K then knownSteps cfg K ss else none
-  | K, .checkName _ _ :: ss =>
+  | K, .checkName ex _ :: ss =>
     match knownBasic cfg (dropCtx K) cfg.checkName with
     | none => none
-    | some K' => knownSteps cfg (dropCtx K') ss
+    | some K' =>
+      -- called with `checkExist = true`, a fall-through of its existence guard means the swamp exists
+      if ex == .yes && K'.contains .notExistChk then knownSteps cfg (.notExist :: dropCtx K') ss
+      else knownSteps cfg (dropCtx K') ss
+  | K, .need a _ :: ss => if K.contains a then knownSteps cfg K ss else none
   | K, .body :: ss => knownSteps cfg K ss
   | _, .unknown :: _ => none
 
@@ -127,6 +132,8 @@ def candEntries : List (String × Entry) :=
     ("noops",      { opsEmpty := true, metaNil := true }),
     ("nopatches",  { patchesEmpty := true }),
     ("badcap",     { cap := .badMax }),
+    ("negfrom",    { fromNeg := true }),
+    ("badkey",     { keyBad := true }),
     ("valid",      {}),
     ("enginepanic", { engine := .panics }),
     ("engineerr",  { engine := .err .internal }) ]
@@ -152,6 +159,10 @@ def firstBad (cfg : Cfg) : List Handler → Option (Handler × String × Shape)
 def findingIds (cfg : Cfg) : List String :=
   (cfg.handlers.flatMap fun h =>
     if violatesB cfg h { top := good, entries := [good] } then ["C26-" ++ h.name ++ "-everyrequest"]
-    else (candShapes.filter (fun p => violatesB cfg h p.2)).map (fun p => "C26-" ++ h.name ++ "-" ++ p.1)).eraseDups
+    else (candShapes.filter (fun p => violatesB cfg h p.2)).map (fun p =>
+      -- an engine hazard is named after the hazard, not after the shape that happened to show it
+      match (exec cfg h p.2).out with
+      | .engineHazard t => "C26-" ++ h.name ++ "-" ++ t
+      | _ => "C26-" ++ h.name ++ "-" ++ p.1)).eraseDups
 
 end Hv.Request
